@@ -33,7 +33,12 @@ func (r *c03Ref) set(key, val []byte) {
 }
 
 func c03Key(tag string) []byte {
-	return nondetBytes(tag, 1+nondetRange(tag+".len", 2))
+	return nondetBytes(tag, 1+nondetRange(tag+".len", param("maxkeylen")))
+}
+
+// c03RandHeight replaces MemDB.randHeight (see spec.json): any height up to param maxheight.
+func c03RandHeight(p *MemDB) int {
+	return 1 + nondetRange("height", param("maxheight"))
 }
 
 // Harness_C03_stream: after any sequence of put / delete / overwrite operations the byte stream fed to the
@@ -48,7 +53,7 @@ func Harness_C03_stream() {
 			db.Delete(key)
 			ref.set(key, nil)
 		} else {
-			val := nondetBytes("val", nondetRange("val.len", 3))
+			val := nondetBytes("val", nondetRange("val.len", param("maxvallen")+1))
 			db.Put(key, val)
 			ref.set(key, val)
 		}
@@ -88,8 +93,8 @@ func Harness_C03_stream() {
 func Harness_C03_hash_order() {
 	a, b := NewOverlayDB(nil), NewOverlayDB(nil)
 	k1, k2 := c03Key("k1"), c03Key("k2")
-	v1 := nondetBytes("v1", nondetRange("v1.len", 3))
-	v2 := nondetBytes("v2", nondetRange("v2.len", 3))
+	v1 := nondetBytes("v1", nondetRange("v1.len", param("maxvallen")+1))
+	v2 := nondetBytes("v2", nondetRange("v2.len", param("maxvallen")+1))
 	junk := nondetBytes("junk", 1)
 	// history A: k1, k2 in order; history B: k2 first with a junk value, delete, k1, then final k2
 	a.Put(k1, v1)
